@@ -280,32 +280,70 @@ func applyChange(content string, lines []string, change TextDocumentContentChang
 	startOffset := positionToOffset(lines, change.Range.Start)
 	endOffset := positionToOffset(lines, change.Range.End)
 
+	// Positions past the end clamp to the end of the document; an inverted
+	// range is treated as the empty range at its start.
+	if startOffset > len(content) {
+		startOffset = len(content)
+	}
+	if endOffset > len(content) {
+		endOffset = len(content)
+	}
+	if endOffset < startOffset {
+		endOffset = startOffset
+	}
+
 	// Build new content
 	var result strings.Builder
 	result.WriteString(content[:startOffset])
 	result.WriteString(change.Text)
-	if endOffset < len(content) {
-		result.WriteString(content[endOffset:])
-	}
+	result.WriteString(content[endOffset:])
 
 	return result.String()
 }
 
-// positionToOffset converts a Position to a byte offset
+// positionToOffset converts a Position to a byte offset into the document.
+//
+// As the protocol prescribes, Position.Character counts UTF-16 code units. A
+// character past the end of its line clamps to the end of that line, a line
+// past the last line clamps to the end of the document, and negative values
+// clamp to zero.
 func positionToOffset(lines []string, pos Position) int {
+	if pos.Line < 0 {
+		return 0
+	}
 	offset := 0
 	for i := 0; i < pos.Line && i < len(lines); i++ {
 		offset += len(lines[i]) + 1 // +1 for newline
 	}
-	if pos.Line < len(lines) {
-		lineLen := len(lines[pos.Line])
-		if pos.Character < lineLen {
-			offset += pos.Character
-		} else {
-			offset += lineLen
+	if pos.Line >= len(lines) {
+		// past the last line: end of the document (there is no newline after the last line)
+		if offset > 0 {
+			offset--
 		}
+		return offset
 	}
-	return offset
+	return offset + utf16ToByteOffset(lines[pos.Line], pos.Character)
+}
+
+// utf16ToByteOffset returns the byte offset in line of the code point boundary
+// that lies char UTF-16 code units from its start, clamped to the line's length.
+// An offset inside a surrogate pair resolves to the start of that character.
+func utf16ToByteOffset(line string, char int) int {
+	if char <= 0 {
+		return 0
+	}
+	units := 0
+	for i, r := range line {
+		w := 1
+		if r >= 0x10000 {
+			w = 2
+		}
+		if units+w > char {
+			return i
+		}
+		units += w
+	}
+	return len(line)
 }
 
 // GetWordAtPosition returns the word at the given position.
